@@ -37,7 +37,9 @@ LEVEL_NOTE = ("Floating-point rounding of exp/log/poisson.cdf is not modelled as
               "(log_one_sub_exp_cancellation: exp within one ulp, one rounded subtraction, p >= 2^-49; the code's subtraction loses up "
               "to 8 digits at rate 1e-9), deviations add up over the bins (sum_terms_close). A catalog carrying a region DIFFERENT "
               "from the forecast's is a caller configuration outside the property (the documented workflow binds the forecast's "
-              "region): those calls are generated but not judged (AWAITING_DECISION names kept as documentation). scipy.stats.poisson.cdf(0, rate) is modelled as exp(-rate). Placement of simulated events is C06.")
+              "region): those calls are generated but not judged (AWAITING_DECISION names kept as documentation). Outside the property as well: "
+              "derived-method hooks - a user catalog class overriding spatial_counts() / spatial_event_probability(); only overrides of the "
+              "basic data accessors are a generated class (seeded C16_15: not reported by decision). scipy.stats.poisson.cdf(0, rate) is modelled as exp(-rate). Placement of simulated events is C06.")
 DESIGN_REF = "DESIGN.md §4 C16"
 TECHNIQUE = "Lean 4 theorems over Mathlib reals (generic RealOps model) + differential testing of the Float instance + definition oracle"
 
@@ -111,7 +113,12 @@ RULE = ("array level: 1-D (1..200 bins) and 2-D ((1..40)x(1..8)) rate arrays, ra
         "the forecast's (same cells, order, edges); calls on which unchanged pyCSEP itself departs are named in AWAITING_DECISION. "
         "Round 6 (owners): public arguments positional / keyword / all keyword, a seed next to injected numbers, UCERF3Catalog as "
         "observed catalog (12%), zero rates written -0.0, the public kernel called by keyword, the caller's arrays (constructor array, "
-        "event array, injected numbers, array-level rates and counts) byte-identical after every call.")
+        "event array, injected numbers, array-level rates and counts) byte-identical after every call. Round 7: observed catalogs of a user "
+        "subclass overriding the BASIC DATA ACCESSORS get_longitudes / get_latitudes / get_magnitudes consistently (14%), copy / deepcopy "
+        "/ pickle images of forecast and catalog before use, a rejected call (one column too many) first, numpy told to raise on divide / "
+        "invalid in 40% of the float64 cases (zero rates included) and half of the float64 kernel cases, a small decimal context. NOT a "
+        "class: overrides of DERIVED public methods (spatial_counts vs spatial_event_probability ...): which derived method the library "
+        "calls internally is outside the property (seeded C16_15 is therefore not reported, C16_H5 green).")
 
 # the exact-rational (Soft64) sampling weights of the pipeline model cost ~0.15 ms per bin: arrays beyond this size are
 # scored through the Float ops (c16_bll / c16_brier / c16_mode) with the simulated catalogs placed by the harness
@@ -453,8 +460,13 @@ def _array_case(run, drv, pending, spec, tag="array"):
         run.count("layouts-differ")
     from . import c05 as _c05m
     owned = _c05m._Owned(rates=rates, counts=counts, counts2=counts2)       # round 6: the caller's arrays stay what they were
+    # round 7 (k): half of the float64 array cases run with numpy told to RAISE on divide / invalid (zero rates included: the scores
+    # never need log(0) or 0 * inf)
+    strict = rdt in _F8 and len(fr) % 2 == 0 and cdt not in ("f4",)
+    if strict:
+        run.count("array-errstate-divide-invalid-raise")
     try:
-        with numpy.errstate(all="ignore"):
+        with numpy.errstate(**(dict(divide="raise", invalid="raise") if strict else dict(all="ignore"))):
             # the arrays are handed over as they are (no copy: a copy would normalise the layout under test)
             # (round 6: the public kernel is called positionally or by keyword)
             if have_b and spec.get("rn_seed", 0) % 3 == 1:
@@ -657,6 +669,17 @@ def _gen_test_spec(rng, tier):
     from . import c05 as _c05m
     spec["conv"] = rng.choice(_c05m.CALL_CONVENTIONS)
     spec["cat_class"] = "ucerf3" if rng.random() < 0.12 and "events_bulk" not in spec else "csep"
+    # round 7: (j) catalogs of a user subclass overriding the BASIC DATA ACCESSORS (negated consistently; overrides of derived methods
+    # such as spatial_counts() are outside the property: coordinator's decision on C16_15 / C16_H5), (h) copy / deepcopy / pickle of forecast and catalog before use, (i) a rejected call first, (k) numpy told to raise on
+    # divide / invalid and a small decimal context around the calls (float64 forecasts, zero rates included: the masked-array code
+    # never takes log(0))
+    r7 = rng.random()
+    if r7 < 0.14:
+        spec["cat_class"] = "user-neg"
+    spec["copies"] = [rng.choice(_c05m.COPY_FORMS), rng.choice(_c05m.COPY_FORMS)]
+    spec["pre_reject"] = rng.random() < 0.2
+    spec["strict_fp"] = rng.random() < 0.4
+    spec["decimal_prec"] = rng.choice([None, None, None, 2, 3, 6])
     if rdt == "f8" and rng.random() < 0.15:
         spec["data"] = [["-0x0.0p+0" if float.fromhex(x) == 0.0 and (k + j) % 2 == 0 else x for j, x in enumerate(row)]
                         for k, row in enumerate(spec["data"])]
@@ -757,11 +780,23 @@ def _build(spec):
     else:
         cat_region = dict(same=fore.region, equal=CartesianGrid2D.from_origins(origins, dh=dh, magnitudes=mags), none=None,
                           nomag=CartesianGrid2D.from_origins(origins, dh=dh))[cr]
-    if spec.get("cat_class") == "ucerf3":
-        from . import c05 as _c05
+    from . import c05 as _c05
+    _GIVEN["skip"] = []
+    cc_ = spec.get("cat_class")
+    if cc_ == "ucerf3":
         cat = _c05._ucerf3_catalog(ev, cat_region)          # another public catalog class carrying the same events (round 6)
+    elif cc_ == "user-neg":
+        cat = _c05._user_classes()["UserNegCatalog"](data=[(a, b, -c_, -d, e, -f) for a, b, c_, d, e, f in ev], region=cat_region,
+                                                     name="catalog")
     else:
         cat = CSEPCatalog(data=ev, region=cat_region, name="catalog")
+    cf = spec.get("copies") or [None, None]
+    if cf[0]:
+        fore = _c05._copy_form(fore, cf[0], what="forecast")
+        if cf[0] != "copy":
+            _GIVEN["array"] = None
+    if cf[1]:
+        cat = _c05._copy_form(cat, cf[1], what="catalog")
     return fore, cat, data, cnt
 
 
@@ -935,8 +970,31 @@ def _test_case(run, drv, pending, spec, tag="test"):
             run.oracle_failure(case, f"{what} = {None if got is None else got[:5]} is not the list of magnitude edges the forecast "
                                      f"was built with {want_m[:5]}")
             return
+    skip = _GIVEN.get("skip") or []
+    cnt_target = cnt.copy()
+    for k_ in skip:
+        cnt_target[spec["events"][k_][0], spec["events"][k_][1]] -= 1
+    ev_kept = None
+    if skip and evtxt is not None:
+        kept = [e for k_, e in enumerate(spec["events"]) if k_ not in set(skip)]
+        ev_kept = ",".join(f"{e[0]}:{e[1]}" for e in kept) if kept else "-"
+    run.count(f"copy-forecast-{(spec.get('copies') or [None, None])[0]}")
+    run.count(f"copy-catalog-{(spec.get('copies') or [None, None])[1]}")
+    strict = bool(spec.get("strict_fp")) and rdt in _F8
+    if strict:
+        run.count("errstate-divide-invalid-raise")
+    if spec.get("pre_reject") and cr in (None, "nomag") and not skip:
+        # round 7 (i): a call the library rejects on the same objects first (one column too many: the count assertion), caught
+        fn0 = modes[spec["rn_seed"] % len(modes)][1]
+        try:
+            with numpy.errstate(all="ignore"), _c05m._capped_uniforms(2000):
+                fn0(fore, cat, num_simulations=2, random_numbers=numpy.random.default_rng(spec["rn_seed"]).random((2, int((cnt > 0).sum()) + ns + 1)))
+            run.count("pre-reject-accepted")
+        except Exception:
+            run.count("pre-reject-raised")
     for mode, fn in modes:
-        obs1d = cnt.sum(axis=1) if mode == "S" else cnt.ravel()
+        cnt_m = cnt_target if (mode == "S" and skip) else cnt          # the user's spatial_counts() is what the S-test is about
+        obs1d = cnt_m.sum(axis=1) if mode == "S" else cnt.ravel()
         n_active = int((obs1d > 0).sum())
         # round 4: `num_simulations` is an argument of its own - one call in eight injects 1-2 rows MORE than simulations
         # asked (the first `num_simulations` rows are the ones to be used); rarely a long verbose run (>= 100 simulations,
@@ -956,7 +1014,8 @@ def _test_case(run, drv, pending, spec, tag="test"):
         owned = _c05m._Owned(random_numbers=rn_all, events=getattr(cat, "catalog", None), given=_GIVEN.get("array"))
         try:
             # with injected numbers the tests draw nothing from the global generator: a call that starts drawing is stopped
-            with numpy.errstate(all="ignore"), _c05m._capped_uniforms(2000):
+            with numpy.errstate(**(dict(divide="raise", invalid="raise") if strict else dict(all="ignore"))), \
+                    _c05m._capped_uniforms(2000), _c05m._decimal_ctx(spec.get("decimal_prec")):
                 if long_run:
                     import contextlib
                     import io
@@ -1000,10 +1059,10 @@ def _test_case(run, drv, pending, spec, tag="test"):
         if mode == "S":
             with numpy.errstate(all="ignore"):
                 rex = numpy.asarray(fore.spatial_counts(), dtype=float)
-        _score_entries(run, drv, pending, case, mode, fn.__name__, data, cnt, rn, float(res.observed_statistic),
+        _score_entries(run, drv, pending, case, mode, fn.__name__, data, cnt_m, rn, float(res.observed_statistic),
                        [float(x) for x in res.test_distribution], rdt, qs=res.quantile, rates_exact=rex,
-                       dims=[ns, nm] if mode == "B" else None, events_txt=evtxt, rn_all=rn_all if surplus else None,
-                       pipe=not long_run)
+                       dims=[ns, nm] if mode == "B" else None, events_txt=(ev_kept if (mode == "S" and skip) else evtxt),
+                       rn_all=rn_all if surplus else None, pipe=not long_run)
         if spec["rn_seed"] % 8 == 0:
             _wrong_width(run, drv, pending, case, mode, fn, (fore, cat), n_active, nsim, g,
                          rex if mode == "S" else data.ravel(), [int(c) for c in obs1d], [ns, nm] if mode == "B" else None)
@@ -1014,7 +1073,8 @@ def _test_case(run, drv, pending, spec, tag="test"):
             run.oracle_failure(case, f"a catalog that came without a space-magnitude region ({cr}) is bound to "
                                      f"{getattr(cat, 'region', None)!r} after the CL / Brier test: not a region that bins like the "
                                      f"forecast's (same cells, same order, same magnitude edges)")
-    _cells_check(run, drv, pending, case, fore, cat, data, cnt, rdt)
+    if not skip:            # the per-cell map mixes the user's two conventions (spatial_counts() vs event_count) by design of that class
+        _cells_check(run, drv, pending, case, fore, cat, data, cnt, rdt)
 
 
 def _cells_check(run, drv, pending, case, fore, cat, data, cnt, rdt="f8"):
@@ -1293,8 +1353,10 @@ def _gen_session_spec(rng, tier):
     """lesson 1: ONE forecast object, two catalogs (sharing the forecast's region object, or arriving without region),
     a random sequence of evaluations and re-scalings of the forecast"""
     test = _gen_test_spec(rng, tier)
-    for k in ("rdtype", "rlayout", "factor"):
+    for k in ("rdtype", "rlayout", "factor", "copies", "pre_reject", "strict_fp", "decimal_prec"):
         test.pop(k, None)
+    if test.get("cat_class") == "user-neg":
+        test["cat_class"] = "csep"              # the session builds its second catalog itself; user classes are a public-test class
     test["fscale"], test["nsim"] = None, rng.choice([1, 2])
     test["cat_region"] = rng.choice(["same", "same", "equal", "none", "nomag"])
     ns, nm = test["ns"], test["nm"]
@@ -1600,6 +1662,8 @@ def run(run, rng, tier):
     _flush(run, drv, pending)
     run.assumptions.append("events are generated at interior points of cells / magnitude bins (edge assignment is C01/C02)")
     run.assumptions.append("injected random numbers lie in [0, 1); the rejection sampler used without injection is C06 (D10)")
+    from . import c05 as _c05x
+    run.extra["copy_forms_unsupported_by_the_tree_under_test"] = sorted(_c05x._COPY_UNSUPPORTED)
 
 
 def replay(run, payload):
